@@ -333,3 +333,146 @@ Proof.
   - destruct ca; apply (Hd [del]); reflexivity.
   - destruct ca; apply (Hd []); reflexivity.
 Qed.
+
+(** ** fn / mod / impl block: the generic parameters of the generated impl block *)
+Lemma detect_generic im fns mode :
+  detect_trait_dependency_mode im fns = Ok mode -> im <> MSingleFn -> mode = MGeneric.
+Proof.
+  unfold detect_trait_dependency_mode. destruct (first_concrete fns).
+  - destruct im; intros H Hn; try discriminate H. contradiction.
+  - intros H _. injection H as <-. reflexivity.
+Qed.
+
+Lemma fn_concrete_tg k o s tf tg ty :
+  analyze k o empty_tg s = Ok (tf, tg) -> tf_deps tf = DConcrete ty -> tg_params tg = lifted_params (s_gen s).
+Proof.
+  intros Hz Hd. destruct (analyze_inv _ _ _ _ _ _ Hz) as (deps & s' & Ha & _ & ->). cbn [tf_deps] in Hd. subst deps.
+  destruct (analyze_deps_kind _ _ _ _ _ Ha) as [(_ & E & _)|(_ & _ & _ & Hag)]; [discriminate E|].
+  destruct (deps_kind (no_deps_value o) s) as [[n|] b|t|].
+  - destruct Hag as (_ & b' & E). discriminate E.
+  - destruct Hag as (E & _). discriminate E.
+  - destruct Hag as (_ & _ & ->). rewrite deps_with_generics_params. reflexivity.
+  - destruct Hag.
+Qed.
+
+(** single fn: the impl block's parameters are [EntraitT: ..] followed by the lifted ones, or (concrete
+    dependency) exactly the function's own non-lifetime parameters *)
+Lemma c19_fn_params v attr h s body items :
+  expand_items v attr (InFn h s body) = Ok items ->
+  exists f tr im, items = [f; ITrait tr; IImpl im] /\
+    ((exists bv rest, p_items (g_params (i_gen im)) = impl_t_param bv :: rest) \/
+     p_items (g_params (i_gen im)) = lifted_params (s_gen s)).
+Proof.
+  intros H. destruct (expand_fn_inv _ _ _ _ _ _ H) as (a & tf & tg & mode & ib & Ha & Hz & Hm & Hib & ->).
+  destruct (gen_impl_block_fns _ _ _ _ _ _ _ _ _ Hib) as (argss & _ & _ & _ & _ & _ & Hgen & _).
+  do 3 eexists. split; [reflexivity|]. rewrite Hgen. cbn [g_params p_items p_of_list]. destruct mode as [|ty].
+  - left. do 2 eexists. reflexivity.
+  - right. cbn [with_t_of impl_params app].
+    unfold detect_trait_dependency_mode in Hm. cbn [first_concrete] in Hm.
+    destruct (tf_deps tf) eqn:Ed; try discriminate Hm.
+    exact (fn_concrete_tg _ _ _ _ _ _ Hz Ed).
+Qed.
+
+Lemma c19_mod_params v attr h name body sigs sf items :
+  expand_items v attr (InMod h name body sigs sf) = Ok items ->
+  exists attrs vs user tr im uv tree bv rest,
+    items = [IMod attrs vs name (user ++ [ITrait tr; IImpl im]); IUse [] uv tree] /\
+    p_items (g_params (i_gen im)) = impl_t_param bv :: rest.
+Proof.
+  intros H. destruct (expand_mod_inv _ _ _ _ _ _ _ _ H) as (_ & bitems & fl & a & fns0 & tg & mode & ib & _ & _ & _ & Hm & Hib & ->).
+  destruct (gen_impl_block_fns _ _ _ _ _ _ _ _ _ Hib) as (argss & _ & _ & _ & _ & _ & Hgen & _).
+  rewrite (detect_generic _ _ _ Hm) in Hgen by discriminate.
+  do 9 eexists. split; [reflexivity|]. rewrite Hgen. reflexivity.
+Qed.
+
+Lemma c19_impl_params v attr h tp st body sigs sf items :
+  expand_items v attr (InImpl h tp st body sigs sf) = Ok items ->
+  exists inh im bv rest, items = [IImpl inh; IImpl im] /\
+    p_items (g_params (i_gen im)) = impl_t_param bv :: rest.
+Proof.
+  intros H. destruct (expand_impl_inv _ _ _ _ _ _ _ _ _ H) as (_ & bitems & fl & a & fns0 & tg & mode & ib & _ & _ & _ & Hm & Hib & ->).
+  cbv zeta in Hm, Hib.
+  destruct (gen_impl_block_fns _ _ _ _ _ _ _ _ _ Hib) as (argss & _ & _ & _ & _ & _ & Hgen & _).
+  rewrite (detect_generic _ _ _ Hm) in Hgen by discriminate.
+  do 4 eexists. split; [reflexivity|]. rewrite Hgen. reflexivity.
+Qed.
+
+(** trait: the impl block is [impl<EntraitT: .., params> .. where EntraitT: b1 + .. + bn, ..] *)
+Lemma c19_trait_params v attr h t items :
+  expand_items v attr (InTrait h t) = Ok items ->
+  exists a0 tr ds im rest wrest,
+    parse_trait_attr attr = Ok a0 /\
+    parts (InTrait h t) items = Some (GTrait tr ds im) /\
+    p_items (g_params (i_gen im)) = impl_t_param false :: rest /\
+    g_where (i_gen im) =
+      Some (p_of_list (mk_pred (impl_t_bounds (eff_trait_attr v a0) (trait_contains_async (t_items t)) (t_name t) (trait_tg t)) :: wrest)).
+Proof.
+  intros H. destruct (expand_trait_inv _ _ _ _ _ H) as (a0 & fns & deleg & methods & Ha & _ & _ & Hd & _ & ->).
+  match goal with |- context [[ITrait ?tr] ++ deleg ++ [IImpl ?im]] =>
+    destruct (parts_trait h t tr deleg im (delegation_trait_defs_shape _ _ _ _ _ _ Hd)) as (ds & Hp & _)
+  end.
+  do 6 eexists. split; [exact Ha|]. split; [exact Hp|]. split; reflexivity.
+Qed.
+
+(** ** the view *)
+(** the one case the predicate misjudges: concrete dependencies, and the function's own first non-lifetime
+    generic parameter is called [EntraitT] and has a bound that is not an absolute path *)
+Definition c19_clash (i : input) : bool :=
+  match i with
+  | InFn _ s _ => match lifted_params (s_gen s) with
+                  | p :: _ => is_prefix [TId "EntraitT"] (print_gparam p) && negb (c19_bounds_ok [] (print_gparam p))
+                  | [] => false
+                  end
+  | _ => false
+  end.
+
+Lemma c05_clash_c19 i : c05_clash i = false -> c19_clash i = false.
+Proof.
+  destruct i; try reflexivity. cbn [c05_clash c19_clash]. destruct (lifted_params (s_gen s)); [reflexivity|].
+  intros ->. reflexivity.
+Qed.
+
+Lemma c19_view_partial v attr i items :
+  expand_items v attr i = Ok items -> c19_clash i = false -> good (view_C19 (mkCtx v attr i) items).
+Proof.
+  intros H Hc. destruct i as [h s body|h|h t|h|h tp st body sigs sf|h|h name body sigs sf|h|]; try discriminate H.
+  - destruct (c19_fn_params _ _ _ _ _ _ H) as (f & tr & im & -> & Hp).
+    destruct (expand_fn_inv _ _ _ _ _ _ H) as (a & tf & tg & mode & ib & _ & _ & _ & _ & E). injection E as -> _ _.
+    unfold view_C19, good. cbn [x_input]. rewrite parts_fn. unfold first_param_toks.
+    destruct Hp as [(bv & rest & ->)| ->].
+    + destruct (c19_impl_t bv) as [P1 P2]. rewrite P1. cbn [decided v_app v_det v_holds]. auto.
+    + cbn [c19_clash] in Hc. destruct (lifted_params (s_gen s)) as [|p l]; [cbn; discriminate|].
+      destruct (is_prefix [TId "EntraitT"] (print_gparam p)); [|cbn; discriminate].
+      cbn [andb] in Hc. apply negb_false_iff in Hc. cbn [decided v_app v_det v_holds]. auto.
+  - destruct (c19_trait_params _ _ _ _ _ H) as (a0 & tr & ds & im & rest & wrest & Ha & Hp & Hg & Hw).
+    unfold view_C19, good, trait_attr_of. cbn [x_input x_attr x_variant]. rewrite Hp, Ha.
+    fold (eff_trait_attr v a0). unfold first_param_toks, first_where_toks. rewrite Hg, Hw.
+    cbn [p_items p_of_list wp_toks mk_pred decided v_app v_det v_holds]. intros _. split; [reflexivity|].
+    destruct (c19_impl_t false) as [_ P2]. rewrite P2. cbn [andb].
+    exact (c19_trait_ok (eff_trait_attr v a0) _ (t_name t) (trait_tg t)).
+  - destruct (c19_impl_params _ _ _ _ _ _ _ _ _ H) as (inh & im & bv & rest & -> & Hp).
+    unfold view_C19, good. cbn [x_input]. rewrite parts_impl. unfold first_param_toks. rewrite Hp.
+    destruct (c19_impl_t bv) as [P1 P2]. rewrite P1. cbn [decided v_app v_det v_holds]. auto.
+  - destruct (c19_mod_params _ _ _ _ _ _ _ _ H) as (attrs & vs & user & tr & im & uv & tree & bv & rest & -> & Hp).
+    unfold view_C19, good. cbn [x_input]. rewrite parts_mod. unfold first_param_toks. rewrite Hp.
+    destruct (c19_impl_t bv) as [P1 P2]. rewrite P1. cbn [decided v_app v_det v_holds]. auto.
+Qed.
+
+(** the unrestricted statement is false: [#[entrait(Foo)] fn foo<EntraitT: Bar>(deps: &App, x: EntraitT) {}] *)
+Definition c19_cex_input : input :=
+  InFn (mkHead [] [] false false)
+       (mkSig false false false None "foo"
+              (mkGen true (mkP [mkGP GType [] "EntraitT" [pc ":"; TId "Bar"] [[TId "Bar"]]] false) None)
+              (mkP [ArgTyped [] (PIdent false false "deps" []) (TyRef None false (TyPath false false 1 "App" [TId "App"]));
+                    ArgTyped [] (PIdent false false "x" []) (TyPath false false 1 "EntraitT" [TId "EntraitT"])] false)
+              None None)
+       [TG Brace []].
+
+Lemma c19_view_refuted :
+  exists v attr i items, expand_items v attr i = Ok items /\ ~ good (view_C19 (mkCtx v attr i) items).
+Proof.
+  exists VEntrait, [TId "Foo"], c19_cex_input.
+  destruct (expand_items VEntrait [TId "Foo"] c19_cex_input) as [items| | |] eqn:E; try (vm_compute in E; discriminate E).
+  exists items. split; [reflexivity|]. vm_compute in E. injection E as <-.
+  intros G. destruct (G eq_refl) as [_ G2]. vm_compute in G2. discriminate G2.
+Qed.
